@@ -84,6 +84,29 @@ def main(ctx: Ctx):
             f = shape_fail(obs)
             if f:
                 ctx.fail(f'{f[0]}:{kind}:undecodable-exception', f'{prog}, target raises an exception whose class cannot be rebuilt by the parent: {f[1]}', {'prog': prog, 'target': 't_two', 'obs': obs})
+        # ---- an accessor that races with the end of the work (thread kinds: the child writes the outcome itself).
+        # Schedule: the caller is preempted inside the accessor, wherever it asks whether the child is alive, until the child
+        # has finished. The outcome reported must still be the work's own.
+        import pyworkers.thread as TH
+        import pyworkers.persistent_thread as PTH
+        for clsname, cls in (('ThreadWorker', TH.ThreadWorker), ('PersistentThreadWorker', PTH.PersistentThreadWorker)):
+            for acc in ('result', 'has_error', 'error'):
+                w = cls(TG.f_after, args=(0.25, 7)) if clsname == 'ThreadWorker' else cls(TG.f_after)
+                if clsname != 'ThreadWorker':
+                    w.enqueue(0.25, 7)
+                    w.close()
+                orig = w.is_alive
+                w.is_alive = lambda w=w, orig=orig: (w._child.join(5), orig())[1]
+                first = getattr(w, acc)
+                del w.is_alive
+                watchdog(lambda: w.wait(5), 10)
+                obs = inject.observe(w)
+                want = {'ThreadWorker': ("7", False), 'PersistentThreadWorker': ("1", False)}[clsname]
+                ctx.case(('preempted-accessor', clsname, acc), True, sample={'case': 'accessor preempted until the child has finished', 'class': clsname, 'accessor': acc, 'first_read': repr(first), 'obs': obs[0]})
+                got = (repr(w.result), w.has_error)
+                if got != want:
+                    ctx.fail(f'outcome-lost:thread:preempted-accessor', f'{clsname}: `{acc}` read while the work was finishing (caller preempted until the child ended): afterwards result={got[0]}, has_error={got[1]} instead of {want}',
+                             {'scenario': 'preempted-accessor', 'class': clsname, 'accessor': acc})
         # ---- parent-side frontend thread still receiving the result while the remote child is already gone
         import threading
         import pyworkers.remote as R
@@ -143,7 +166,21 @@ def replay(case):
     import common
     sess = inject.Session()
     try:
-        if 'k' in case:
+        if case.get('scenario') == 'preempted-accessor':
+            import pyworkers.thread as TH
+            import pyworkers.persistent_thread as PTH
+            cls = getattr(TH if case['class'] == 'ThreadWorker' else PTH, case['class'])
+            w = cls(TG.f_after, args=(0.25, 7)) if case['class'] == 'ThreadWorker' else cls(TG.f_after)
+            if case['class'] != 'ThreadWorker':
+                w.enqueue(0.25, 7)
+                w.close()
+            orig = w.is_alive
+            w.is_alive = lambda: (w._child.join(5), orig())[1]
+            print('first read of', case['accessor'], '->', repr(getattr(w, case['accessor'])))
+            del w.is_alive
+            w.wait(5)
+            print('afterwards: result', repr(w.result), 'has_error', w.has_error, '(the work returned 7; a persistent worker reports its counter 1)')
+        elif 'k' in case:
             r = inject.run_case(sess, case['prog'], case['target'], case['k'], case['mode'])
             print('real :', r.get('obs'), r.get('notes'))
             print('model:', common.run_driver([case['model_line']])[0])
